@@ -36,8 +36,8 @@ def sequential(tr):
             if open_cb is None or open_cb[0] != 'call_' + k[:-5] or open_cb[1] != e[1]:
                 v.append(f"completion {e} without matching open call ({open_cb})")
             open_cb = None
-        elif k == 'drop' and 'timeout_fut' in e[1] and open_cb is not None and open_cb[0] == 'call_task':
-            open_cb = None      # abandoned by timeout
+        elif ((k == 'drop' and 'timeout_fut' in e[1]) or (k == 'abandon' and e[1] == 'task')) and open_cb is not None and open_cb[0] == 'call_task':
+            open_cb = None      # abandoned by timeout (the value that owns the started handler future is dropped)
         elif k in ('unwind_from',):
             open_cb = None
     return v
@@ -205,7 +205,7 @@ def timeouts(tr, has_timeout, fail_on_timeout):
             v.append(f"task {n}: timeout configured but the handler was polled without a timer")
         done = _idx(seg, lambda e: e[0] == 'task_poll' and e[1] == n and e[2] == 'ready')
         fired = _idx(seg, lambda e: e[0] == 'delay_poll' and e[2] == 'ready')
-        abandoned = _idx(seg, lambda e: e[0] == 'drop' and 'timeout_fut' in e[1])
+        abandoned = _idx(seg, lambda e: (e[0] == 'drop' and 'timeout_fut' in e[1]) or (e[0] == 'abandon' and e[1] == 'task' and e[2] == n))
         if has_timeout is False and abandoned is not None and done is None:
             v.append(f"task {n} abandoned although no timeout is configured")
         if done is not None and fired is not None and fired < done:
